@@ -224,8 +224,11 @@ class MTSPEnv(RL4COEnvBase):
 
         # With distance, same as TSP
         elif self.cost_type == "sum":
+            # All sub-tours start and end at the depot (node 0), which is not part of the actions at the start
             locs = td["locs"]
-            locs_ordered = locs.gather(1, actions.unsqueeze(-1).expand_as(locs))
+            locs_ordered = torch.cat(
+                [locs[..., 0:1, :], gather_by_index(locs, actions)], dim=1
+            )
             return -get_tour_length(locs_ordered)
 
         else:
